@@ -72,6 +72,13 @@ def extra_cfgs(tier):
             Reg(s, 'reg', d, q, reset_value=rv)
             return {'ins': {'d': d}, 'outs': {'q': q}}
         add('Reg4 plain reset_value %s' % rv, b)
+    # d and q of different widths, reset values that are negative / do not fit in d / exceed 32 bits
+    for dw, qw, rv in ((4, 8, -3), (4, 8, 200), (8, 4, -3), (8, 4, 9), (4, 40, 1 << 33), (4, 40, -1), (2, 6, 37), (6, 2, 2)):
+        def b(s, dw=dw, qw=qw, rv=rv):
+            d, q, r = W(s, 'd', dw), W(s, 'q', qw), W(s, 'r', 1)
+            Reg(s, 'reg', d, q, reset=r, reset_value=rv)
+            return {'ins': {'d': d, 'r': r}, 'outs': {'q': q}}
+        add('Reg d%d q%d reset_value %s' % (dw, qw, rv), b)
     # constants: in range, negative, oversized
     for w, v in ((4, 5), (4, -1), (4, 16), (4, 21), (1, 1), (8, 255), (8, -128), (33, -1), (36, 1 << 35), (3, 0)):
         def b(s, w=w, v=v):
@@ -173,6 +180,30 @@ def extra_cfgs(tier):
         Reg(s, 'reg', a, q, reset_value=5)
         return {'ins': {'a': a}, 'outs': {'h': h, 'q': q}}
     add('shared modules: Reg fed back onto itself first, ordinary Reg second', alias_reg)
+
+    # one wire on an input AND an output port of a structural block (feedback through the parent)
+    def feedback_box(s):
+        step, acc = W(s, 'step', 4), W(s, 'acc', 4)
+
+        def body(b):
+            t = b.wire('t', 4)
+            Add(b, 'add', acc, step, t)
+            Reg(b, 'reg', t, acc)
+        D.Box(s, 'accum', {'a': acc, 'inc': step}, {'r': acc}, body)
+        o = W(s, 'o', 4)
+        Not(s, 'n', acc, o)
+        return {'ins': {'step': step}, 'outs': {'o': o, 'acc': acc}}
+    add('structural block with one wire on an input and an output port (accumulator feedback)', feedback_box)
+
+    def selfadd(s):
+        step, x = W(s, 'step', 4), W(s, 'x', 4)
+        d, q = W(s, 'd', 4), W(s, 'q', 4)
+        Add(s, 'sum', q, step, d)
+        Reg(s, 'reg', d, q)
+        y = W(s, 'y', 4)
+        Add(s, 'other', step, step, y)
+        return {'ins': {'step': step}, 'outs': {'q': q, 'y': y}}
+    add('shared Add used with distinct operands and with one wire on both operands, around a register', selfadd)
 
     def hier(s):
         a, e = W(s, 'a', 3), W(s, 'e', 1)
